@@ -15,7 +15,6 @@ from __future__ import annotations
 
 import collections
 import functools
-import hashlib
 import os
 import pickle
 import shutil
@@ -115,10 +114,6 @@ def snap_diff(a, b, path="$"):
                 return d
         return None
     return None if a == b else f"{path}: {str(a)[:80]} != {str(b)[:80]}"
-
-
-def digest(s):
-    return hashlib.sha1(repr(s).encode()).hexdigest()[:16]
 
 
 # --------------------------------------------------------------------------- callables in an object graph
@@ -353,7 +348,6 @@ SPECS = (
     + [StreamDDSpec("IncrementalKSTest"), StreamDDSpec("MMDStreaming")]
 )
 SPEC_BY_NAME = {s.name: s for s in SPECS}
-CALLBACK_CLASS = {"history": "HistoryConceptDrift", "history2": "HistoryConceptDrift", "perm": "PermutationTestDistanceBased", "reset": "ResetStatisticalTest"}
 
 
 def gen_callback(rng, kind):
@@ -571,6 +565,10 @@ def proto_coq(p):
     return "PNonNumeric"
 
 
+class Holder:  # same shape as BaseECDDConfig: lambdas in a dict in a class body
+    fmap = {1: lambda p: p}
+
+
 REJ_HEADER = (
     HEADER
     + """From FV Require Import Persist.
@@ -578,9 +576,9 @@ Open Scope string_scope.
 Definition o_t := (kind * bool)%type.
 Definition sentinel : o_t := (KOther, true).
 (* identity pickle; a failed dump leaves an unreadable file; file states: 0 absent, 1 unreadable, 2 previous content, 3 new pickle *)
-Definition sv (k : kind) (pk : bool) (pr : pyproto) (existing dir : bool) :=
+Definition sv (w : write_order) (k : kind) (pk : bool) (pr : pyproto) (existing dir : bool) :=
   let f0 : fs (option o_t) := fun q => if existing then Some (Some sentinel) else None in
-  let r := save o_t fst snd (option o_t) None (fun o _ => Some o) (fun _ _ => None) (fun _ => dir) (k, pk) "p" pr f0 in
+  let r := save o_t fst snd (option o_t) None (fun o _ => Some o) (fun _ _ => None) (fun _ => dir) w (k, pk) "p" pr f0 in
   (snd r,
    match fst r "p" with None => 0 | Some None => 1
    | Some (Some (KOther, _)) => 2 | Some (Some _) => 3 end,
@@ -598,10 +596,21 @@ def rejection(ck, thorough):
     from frouros.utils.data_structures import CircularQueue
     from frouros.utils.stats import Mean
 
+    import inspect
+
     rng = ck.rng
+    # which revision of save() is this?  read off the source, not off its behaviour
+    worder = "DumpsThenWrite" if "dumps(" in inspect.getsource(save) else "DumpIntoOpenFile"
+    ck.notes.append(f"revision of save() as read off its source: {worder}")
+    ck.count("revision:" + worder)
 
     def a_function(x):
         return x
+
+    tainted = DDM()
+    tainted.extra = Holder.fmap[1]
+    tainted_cb = HistoryConceptDrift()
+    tainted_cb.logs["f"] = Holder.fmap[1]
 
     det = DDM(callbacks=[HistoryConceptDrift()])
     for v in (0, 1, 1, 0):
@@ -627,7 +636,10 @@ def rejection(ck, thorough):
         ("batch-detector", fitted, "KDetector"),
         ("callback", det.callbacks[0], "KCallback"),
         ("unattached-callback", HistoryConceptDrift(), "KCallback"),
+        ("detector-holding-class-body-lambda", tainted, "KDetector"),
+        ("callback-holding-class-body-lambda", tainted_cb, "KCallback"),
     ]
+    unpicklable = {"detector-holding-class-body-lambda", "callback-holding-class-body-lambda"}
     protos = [
         ("-1", -1), ("-2", -2), ("HIGHEST+1", HIGHEST + 1), ("huge", 10**30), ("-huge", -(10**30)), ("2.5", 2.5), ("nan", float("nan")), ("str", "2"),
         ("None", None), ("list", [1]), ("np.int64(-1)", np.int64(-1)), ("np.int64(HIGHEST+1)", np.int64(HIGHEST + 1)), ("-0.5", -0.5), ("6.0", float(HIGHEST + 1)),
@@ -650,7 +662,7 @@ def rejection(ck, thorough):
                 if not dirok and rng.random() < 0.7:
                     continue
                 cases.append((oname, o, kind, pname, p, existing, dirok, nonint))
-                exprs.append(f"sv {kind} true {proto_coq(p)} {'true' if existing else 'false'} {'true' if dirok else 'false'}")
+                exprs.append(f"sv {worder} {kind} {'false' if oname in unpicklable else 'true'} {proto_coq(p)} {'true' if existing else 'false'} {'true' if dirok else 'false'}")
     model = coq_eval("C15rej", REJ_HEADER, exprs, shard=400)
     old = b"previous content, not a pickle"
     for (oname, o, kind, pname, p, existing, dirok, nonint), mo in zip(cases, model):
@@ -707,22 +719,25 @@ def rejection(ck, thorough):
             elif outcome != "ok" and touched:
                 # not what the property forbids (the file is not usable) but more than a failed save should do
                 ck.count("reject:left-empty-or-truncated-file:" + pname)
+        elif oname in unpicklable:
+            # the user put something unpicklable into the object: save must fail, and must not leave a loadable file
+            if outcome == "ok" or state == 3:
+                ck.violation(dict(clause="unpicklable-accepted", object=oname, protocol=pname), dict(what="an object holding a class-body lambda was saved / left a loadable file", **det_))
+            elif touched:
+                ck.count("reject:left-empty-or-truncated-file:unpicklable-object")
         elif dirok:
             if outcome != "ok" or state != 3:
                 ck.violation(dict(clause="picklable", cls=oname, protocol=pname), dict(what="valid object and protocol: save failed or wrote nothing loadable", **det_))
     n_trunc = sum(v for k_, v in ck.dist.items() if k_.startswith("reject:left-empty-or-truncated-file:"))
     if n_trunc:
         ck.notes.append(
-            f"O-C15-1: {n_trunc} rejected saves with an integral FLOAT protocol (2.0, np.float64(1.0), 0.0) passed `in range(...)`, opened the target (creating it or destroying its previous content) "
-            "and only then raised TypeError from pickle.dump; the file left is empty (not loadable), so the property's wording holds; model: C15_nonint_protocol_unchanged_refuted"
+            f"O-C15-1: {n_trunc} failing saves (integral FLOAT protocol 2.0 / np.float64(1.0) / 0.0, which passes `in range(...)`; or an object into which an unpicklable callable was put) opened the target "
+            "(creating it or destroying its previous content) and only then raised from pickle.dump; the file left is not loadable, so the property's wording holds; "
+            "model: C15_nonint_protocol_unchanged_refuted, C15_unpicklable_raises_after_open; with pickle.dumps before open: C15_failed_save_leaves_fs_when_dumps_first"
         )
 
 
 # --------------------------------------------------------------------------- model table tie
-
-
-def coq_cls(name):
-    return "C_" + name
 
 
 def table_tie(ck):
@@ -866,7 +881,7 @@ def run(ck: Check):
                         if fields != exp:
                             ck.mismatch("callable attributes after a history vs model table", dict(cls=spec.name, impl=fields, model=exp, case=case))
                     # model tie on the no-save run of the 13 detectors (the model says: = resumed = original)
-                    if spec.family == "concept" and len(ops) <= 25 and end == "detector" and cbkind in (None, "history") and (thorough or vi <= 1) and len([c for c in tie_cases if c[0] is spec.det]) < (2 if not thorough else 6):
+                    if spec.family == "concept" and len(ops) <= 25 and end == "detector" and cbkind in (None, "history") and (thorough or vi <= 1) and len([c for c in tie_cases if c[0] is spec.det]) < (3 if not thorough else 8):
                         np.random.seed(case["env_seed"])
                         cbs = make_callbacks(cb)
                         out, exc, extra = run_impl(spec.det, cfg, ops, callbacks=cbs or None)
@@ -876,6 +891,7 @@ def run(ck: Check):
                             tie_cases.append((spec.det, cfg, ops, extra if isinstance(spec.det, KSWINDet) else None))
                             tie_impl.append(out)
                             tie_hist.append(cbs[0].history if cbs else None)
+                            ck.count("tie:model-trace" + (":with-history-callback" if cbs else ""))
     # ------------------------------------------------------------------ model evaluation
     if tie_cases:
         models = run_models("C15", tie_cases, shard=30)
